@@ -290,6 +290,21 @@ def stack_correspondence(run, quick):
         scripts.append("BP:tps=1000,max=1000 X:fd:n %s %s C W C %s %s C W C R:fd:0 C R:fd:0 C W C R:fd:1 C %s C R:fd:0 C D" % (q(1, n), q(2, n), q(3, n), q(4, n), q(5, n)))
         scripts.append("BP:tps=1000,max=1000 X:fd:n %s C W C R:fd:1 C %s %s C R:fd:1 C R:fd:0 C W C %s W C R:fd:1 C D" % (q(1, n), q(2, n), q(3, n), q(4, n)))
         scripts.append("BP:tps=1000,max=2 X:fd:n %s %s C %s C R:fd:0 C W C %s %s C R:fd:1 C R:fd:0 C D" % (q(1, n), q(2, n), q(3, n), q(4, n), q(5, n)))
+    # random histories: buffer / write_block / rotate with and without export in any order, records of any size, block sizes that make
+    # buffer calls flush by themselves
+    rng = run.rng
+    for _ in range(6 if quick else 60):
+        toks, i = [], 0
+        for _ in range(rng.randrange(5, 14)):
+            k = rng.random()
+            if k < 0.5:
+                i += 1; toks.append(q(i % 60 + 1, rng.choice([5, 300, 700, 1500, 2100, 4200])))
+            elif k < 0.7:
+                toks.append("W")
+            else:
+                toks.append("R:fd:%d" % rng.randrange(2))
+            toks.append("C")
+        scripts.append("BP:tps=1000,max=%d X:fd:n %s D" % (rng.choice([2, 3, 1000]), " ".join(toks)))
     base = run_os(["os full " + sc for sc in scripts])
     lines, metas = [], []
     for sc, b in zip(scripts, base):
